@@ -30,7 +30,9 @@ type jinner struct {
 
 type jcustom struct{ n int64 }
 
-func (c jcustom) MarshalJSON() ([]byte, error) { return []byte(`"c` + strconv.FormatInt(c.n, 10) + `"`), nil }
+func (c jcustom) MarshalJSON() ([]byte, error) {
+	return []byte(`"c` + strconv.FormatInt(c.n, 10) + `"`), nil
+}
 func (c *jcustom) UnmarshalJSON(b []byte) error {
 	n, err := strconv.ParseInt(string(b[2:len(b)-1]), 10, 64)
 	c.n = n
@@ -64,13 +66,33 @@ var Debug = false
 
 // Cases maps a name to func(x, y int64) int64.
 var Cases = map[string]func(x, y int64) int64{
-	"add":    func(x, y int64) int64 { return x + y },
-	"sub":    func(x, y int64) int64 { return x - y },
-	"mul":    func(x, y int64) int64 { return x * y },
-	"div":    func(x, y int64) int64 { if y == 0 { return -7 }; return x / y },
-	"rem":    func(x, y int64) int64 { if y == 0 { return -7 }; return x % y },
-	"udiv":   func(x, y int64) int64 { if y == 0 { return -7 }; return int64(uint64(x) / uint64(y)) },
-	"urem":   func(x, y int64) int64 { if y == 0 { return -7 }; return int64(uint64(x) % uint64(y)) },
+	"add": func(x, y int64) int64 { return x + y },
+	"sub": func(x, y int64) int64 { return x - y },
+	"mul": func(x, y int64) int64 { return x * y },
+	"div": func(x, y int64) int64 {
+		if y == 0 {
+			return -7
+		}
+		return x / y
+	},
+	"rem": func(x, y int64) int64 {
+		if y == 0 {
+			return -7
+		}
+		return x % y
+	},
+	"udiv": func(x, y int64) int64 {
+		if y == 0 {
+			return -7
+		}
+		return int64(uint64(x) / uint64(y))
+	},
+	"urem": func(x, y int64) int64 {
+		if y == 0 {
+			return -7
+		}
+		return int64(uint64(x) % uint64(y))
+	},
 	"and":    func(x, y int64) int64 { return x & y },
 	"or":     func(x, y int64) int64 { return x | y },
 	"xor":    func(x, y int64) int64 { return x ^ y },
@@ -83,20 +105,38 @@ var Cases = map[string]func(x, y int64) int64{
 	"sar32":  func(x, y int64) int64 { return int64(int32(x) >> (uint32(y) & 63)) },
 	"cmp": func(x, y int64) int64 {
 		r := int64(0)
-		if x < y { r |= 1 }
-		if x <= y { r |= 2 }
-		if uint64(x) < uint64(y) { r |= 4 }
-		if uint64(x) >= uint64(y) { r |= 8 }
-		if x == y { r |= 16 }
-		if int8(x) > int8(y) { r |= 32 }
-		if uint16(x) > uint16(y) { r |= 64 }
+		if x < y {
+			r |= 1
+		}
+		if x <= y {
+			r |= 2
+		}
+		if uint64(x) < uint64(y) {
+			r |= 4
+		}
+		if uint64(x) >= uint64(y) {
+			r |= 8
+		}
+		if x == y {
+			r |= 16
+		}
+		if int8(x) > int8(y) {
+			r |= 32
+		}
+		if uint16(x) > uint16(y) {
+			r |= 64
+		}
 		return r
 	},
 	"conv": func(x, y int64) int64 {
 		return int64(int8(x)) + int64(uint8(y)) + int64(int16(x))*3 + int64(uint32(y)) + int64(int32(x)) + int64(uint16(x))
 	},
 	"wrap32": func(x, y int64) int64 { a := int32(x); b := int32(y); return int64(a*b + a - b) },
-	"wrapu8": func(x, y int64) int64 { a := uint8(x); b := uint8(y); return int64(a*b+a-b) + int64(a/(b|1)) + int64(a%(b|1)) },
+	"wrapu8": func(x, y int64) int64 {
+		a := uint8(x)
+		b := uint8(y)
+		return int64(a*b+a-b) + int64(a/(b|1)) + int64(a%(b|1))
+	},
 	"minmax": func(x, y int64) int64 { return min(x, y)*3 + max(x, y) },
 	"loop": func(x, y int64) int64 {
 		n := int(uint8(x) % 9)
@@ -148,7 +188,9 @@ var Cases = map[string]func(x, y int64) int64{
 		delete(m, 2)
 		v, ok := m[2]
 		r := v
-		if ok { r += 1000 }
+		if ok {
+			r += 1000
+		}
 		s := int64(len(m))
 		for k, v := range m {
 			s += k*100 + v
@@ -174,8 +216,12 @@ var Cases = map[string]func(x, y int64) int64{
 		var s shape = rect{x, y}
 		t := s.area()
 		s = &sq{y}
-		if q, ok := s.(*sq); ok { t += q.s }
-		if _, ok := s.(rect); ok { t += 1 << 40 }
+		if q, ok := s.(*sq); ok {
+			t += q.s
+		}
+		if _, ok := s.(rect); ok {
+			t += 1 << 40
+		}
 		switch v := s.(type) {
 		case rect:
 			t += v.w
@@ -200,12 +246,22 @@ var Cases = map[string]func(x, y int64) int64{
 		t := strings.ToUpper(s[:i]) + strings.Repeat("z", int(uint8(y)%4))
 		f := strings.Split(s, "-")
 		r := int64(len(t))*100 + int64(len(f))
-		if strings.HasPrefix(s, "abc") { r += 7 }
-		if strings.Contains(s, "b"+string(s[2])) { r += 11 }
-		if t < "ABM" { r += 13 }
+		if strings.HasPrefix(s, "abc") {
+			r += 7
+		}
+		if strings.Contains(s, "b"+string(s[2])) {
+			r += 11
+		}
+		if t < "ABM" {
+			r += 13
+		}
 		n, err := strconv.Atoi(f[len(f)-1])
-		if err == nil { r += int64(n) }
-		for _, c := range t { r += int64(c) }
+		if err == nil {
+			r += int64(n)
+		}
+		for _, c := range t {
+			r += int64(c)
+		}
 		return r
 	},
 	"bytesum": func(x, y int64) int64 {
@@ -216,8 +272,12 @@ var Cases = map[string]func(x, y int64) int64{
 		for i := 0; i < len(s); i++ {
 			r = r*31 + int64(s[i])
 		}
-		if s == "hello" { r++ }
-		if s > "hellp" { r += 2 }
+		if s == "hello" {
+			r++
+		}
+		if s > "hellp" {
+			r += 2
+		}
 		return r
 	},
 	"sort": func(x, y int64) int64 {
@@ -338,7 +398,12 @@ var Cases = map[string]func(x, y int64) int64{
 		return r + x - x + y - y
 	},
 	"variadic": func(x, y int64) int64 {
-		sum := func(v ...int64) (s int64) { for _, e := range v { s += e }; return }
+		sum := func(v ...int64) (s int64) {
+			for _, e := range v {
+				s += e
+			}
+			return
+		}
 		return sum() + sum(x) + sum(x, y, 3)
 	},
 	"goto": func(x, y int64) int64 {
